@@ -10,7 +10,6 @@ package interp
 import (
 	"math"
 	"runtime"
-	"sort"
 	"unicode/utf8"
 )
 
@@ -83,9 +82,6 @@ func init() {
 		"runtime.GOROOT":                  ext۰runtime۰GOROOT,
 		"runtime.Goexit":                  ext۰runtime۰Goexit,
 		"runtime.NumCPU":                  ext۰runtime۰NumCPU,
-		"sort.Float64s":                   ext۰sort۰Float64s,
-		"sort.Ints":                       ext۰sort۰Ints,
-		"sort.Strings":                    ext۰sort۰Strings,
 		"unicode/utf8.DecodeRuneInString": ext۰unicode۰utf8۰DecodeRuneInString,
 	} {
 		externals[k] = v
@@ -152,27 +148,6 @@ func ext۰runtime۰Breakpoint(fr *frame, args []value) value {
 	return nil
 }
 
-func ext۰sort۰Ints(fr *frame, args []value) value {
-	x := args[0].([]value)
-	sort.Slice(x, func(i, j int) bool {
-		return x[i].(int) < x[j].(int)
-	})
-	return nil
-}
-func ext۰sort۰Strings(fr *frame, args []value) value {
-	x := args[0].([]value)
-	sort.Slice(x, func(i, j int) bool {
-		return x[i].(string) < x[j].(string)
-	})
-	return nil
-}
-func ext۰sort۰Float64s(fr *frame, args []value) value {
-	x := args[0].([]value)
-	sort.Slice(x, func(i, j int) bool {
-		return x[i].(float64) < x[j].(float64)
-	})
-	return nil
-}
 
 
 
